@@ -2,7 +2,7 @@
    no node is its own parent, nothing is allocated beyond w_next, every id a node or a model mentions is allocated. *)
 From Coq Require Import Lia.
 From AV Require Import Base.Bytes Base.Outcome Hash.HashModel Tree.Heap Tree.Ops Tree.Script Tree.Inv
-  Tree.Fail Tree.Observe.
+  Tree.Fail Tree.Observe Tree.FailProofs.
 Open Scope list_scope.
 Open Scope N_scope.
 
@@ -46,3 +46,45 @@ Lemma TreeInv_Inv11 w : TreeInv w -> Inv11 w.
 Proof. intros [HC _]. apply Core_Inv11. exact HC. Qed.
 Lemma TreeInv_ClosedHeap w : TreeInv w -> ClosedHeap w.
 Proof. intros [HC _]. apply Core_ClosedHeap. exact HC. Qed.
+
+(* ---------- the C11 theorems stated with C03's Core invariant ---------- *)
+Lemma fail_no_effect_core :
+  forall (T : tables) (tab_el tab_en : nametab) (check_fn : N -> list N -> res bool) (LATEST : N)
+         (root_attrs : list (N * cdata)),
+  tables_ok11 T ->
+  forall (w : world) (o : op) (e : err) (w' : world),
+  Core w ->
+  Known11 T tab_el tab_en check_fn LATEST root_attrs w o = false ->
+  run_op T tab_el tab_en check_fn LATEST root_attrs o w = Val (ER e, w') ->
+  obs_eq_upto_garbage w w'.
+Proof.
+  intros T tab_el tab_en check_fn LATEST root_attrs HT w o e w' HC.
+  exact (C11_fail_no_effect T tab_el tab_en check_fn LATEST root_attrs HT w o e w' (Core_Inv11 w HC)).
+Qed.
+
+Lemma fail_exact_core :
+  forall (T : tables) (tab_el tab_en : nametab) (check_fn : N -> list N -> res bool) (LATEST : N)
+         (root_attrs : list (N * cdata)),
+  tables_ok11 T ->
+  forall (w : world) (o : op) (e : err) (w' : world),
+  Core w ->
+  Known11 T tab_el tab_en check_fn LATEST root_attrs w o = false ->
+  is_copy o = false ->
+  run_op T tab_el tab_en check_fn LATEST root_attrs o w = Val (ER e, w') ->
+  w' = w /\ observe w' = observe w.
+Proof.
+  intros T tab_el tab_en check_fn LATEST root_attrs HT w o e w' HC.
+  exact (C11_fail_exact T tab_el tab_en check_fn LATEST root_attrs HT w o e w' (Core_Inv11 w HC)).
+Qed.
+
+Lemma garbage_unreachable_core :
+  forall (w w' : world), Core w -> obs_eq_upto_garbage w w' ->
+  (forall a x, a < w_next w -> reach_from w' a x -> x < w_next w) /\
+  (forall m x, In m (w_models w') -> reach_from w' (m_root m) x -> x < w_next w) /\
+  map (w_nodes w') (ids_below (w_next w)) = o_nodes (observe w).
+Proof.
+  intros w w' HC HG. split; [|split].
+  - exact (garbage_unreachable w w' (Core_ClosedHeap w HC) HG).
+  - exact (garbage_unreachable_from_roots w w' (Core_ClosedHeap w HC) HG).
+  - exact (proj1 (garbage_old_observation w w' HG)).
+Qed.
